@@ -399,6 +399,13 @@ Theorem C06_constants :
   Generated.auth_delimiter = Some [13; 10].
 Proof. exact constants. Qed.
 
+(* The bus dispatches a peer's line on getattr(self, '_auth_' + word): the handler names found in the tree
+   under test are exactly the six commands of the state machine the model and the specification speak. *)
+Theorem C06_commands_from_source :
+  Generated.bus_auth_commands =
+  Some [w_AUTH; w_BEGIN; w_CANCEL; w_DATA; w_ERROR; w_NEGOTIATE_UNIX_FD].
+Proof. exact commands_from_source. Qed.
+
 (* ----- non-vacuity ---------------------------------------------------------------
    A conversation with scripted mechanisms A ("EXTERNAL") and B ("ANONYMOUS"):
    a rejected attempt, a challenge, a cancel, an accepted attempt, a stray DATA in
